@@ -178,6 +178,10 @@ pub struct Gc<T: Default + Reset + Traceable> {
     /// Weak reference to space - used to check if space is still alive before accessing ptr
     /// This prevents use-after-free when Gc outlives the Space (e.g., during interpreter shutdown)
     space: Weak<RefCell<Space<T>>>,
+
+    /// Generation of the slot this handle was created for (verification hook)
+    #[cfg(tsrun_verif)]
+    generation: u32,
 }
 
 impl<T: Default + Reset + Traceable> PartialEq for Gc<T> {
@@ -197,11 +201,15 @@ impl<T: Default + Reset + Traceable> Eq for Gc<T> {}
 impl<T: Default + Reset + Traceable> Gc<T> {
     /// Borrow the inner data immutably
     pub fn borrow(&self) -> Ref<'_, T> {
+        #[cfg(tsrun_verif)]
+        self.verif_check_stale("borrow");
         unsafe { self.ptr.as_ref().data.borrow() }
     }
 
     /// Borrow the inner data mutably
     pub fn borrow_mut(&self) -> RefMut<'_, T> {
+        #[cfg(tsrun_verif)]
+        self.verif_check_stale("borrow_mut");
         unsafe { self.ptr.as_ref().data.borrow_mut() }
     }
 
@@ -223,6 +231,39 @@ impl<T: Default + Reset + Traceable> Gc<T> {
     /// the GcPtr doesn't outlive the original Gc.
     pub fn copy_ref(&self) -> GcPtr<T> {
         GcPtr { ptr: self.ptr }
+    }
+
+    /// Verification hook: is this handle's slot pooled or reused by a newer tenant?
+    /// Only meaningful while the space is alive.
+    #[cfg(tsrun_verif)]
+    pub fn verif_is_stale(&self) -> bool {
+        if self.space.upgrade().is_none() {
+            return false;
+        }
+        let gc_box = unsafe { self.ptr.as_ref() };
+        gc_box.pooled.get() || gc_box.generation.get() != self.generation
+    }
+
+    /// Verification hook: linear slot index of this handle.
+    #[cfg(tsrun_verif)]
+    pub fn verif_slot(&self) -> usize {
+        if self.space.upgrade().is_none() {
+            return usize::MAX;
+        }
+        unsafe { self.ptr.as_ref().index }
+    }
+
+    #[cfg(tsrun_verif)]
+    #[inline]
+    fn verif_check_stale(&self, op: &'static str) {
+        if self.space.upgrade().is_none() {
+            return;
+        }
+        let gc_box = unsafe { self.ptr.as_ref() };
+        let pooled = gc_box.pooled.get();
+        if pooled || gc_box.generation.get() != self.generation {
+            crate::verif::on_stale_deref(gc_box.index, op, pooled);
+        }
     }
 }
 
@@ -255,9 +296,15 @@ impl<T: Default + Reset + Traceable> Clone for Gc<T> {
                 gc_box.ref_count.set(gc_box.ref_count.get() + 1);
             }
         }
+        #[cfg(tsrun_verif)]
+        if self.verif_is_stale() {
+            crate::verif::on_stale_clone();
+        }
         Self {
             ptr: self.ptr,
             space: self.space.clone(),
+            #[cfg(tsrun_verif)]
+            generation: self.generation,
         }
     }
 }
@@ -273,6 +320,11 @@ impl<T: Default + Reset + Traceable> Drop for Gc<T> {
 
         // Now safe to access the GcBox
         let gc_box = unsafe { self.ptr.as_ref() };
+
+        #[cfg(tsrun_verif)]
+        if gc_box.pooled.get() || gc_box.generation.get() != self.generation {
+            crate::verif::on_stale_drop();
+        }
 
         // Check if this Gc is from a different generation (object was reused)
         // In that case, don't affect ref_count - this Gc is stale
@@ -355,6 +407,9 @@ pub struct GcBox<T: Default + Reset + Traceable> {
     // Generation counter - incremented each time slot is reused from pool.
     // Old Gc pointers with different generations don't affect ref_count.
     // generation: Cell<u32>,
+    /// Verification hook: bumped every time the slot is pooled
+    #[cfg(tsrun_verif)]
+    generation: Cell<u32>,
 }
 
 impl<T: Default + Reset + Traceable> GcBox<T> {
@@ -365,6 +420,8 @@ impl<T: Default + Reset + Traceable> GcBox<T> {
             ref_count: Cell::new(0),
             pooled: Cell::new(false),
             // generation: Cell::new(0),
+            #[cfg(tsrun_verif)]
+            generation: Cell::new(0),
         }
     }
 }
@@ -473,6 +530,10 @@ impl<T: Default + Reset + Traceable> Space<T> {
         // This ensures the newly allocated object won't be swept before
         // it's added to a guard's roots
         self.net_allocs += 1;
+        #[cfg(tsrun_verif)]
+        if crate::verif::on_alloc() {
+            self.collect();
+        }
         if self.gc_threshold > 0 && self.net_allocs >= self.gc_threshold {
             self.collect();
         }
@@ -546,6 +607,8 @@ impl<T: Default + Reset + Traceable> Space<T> {
         Gc {
             ptr,
             space: self.self_weak.clone(),
+            #[cfg(tsrun_verif)]
+            generation: unsafe { ptr.as_ref().generation.get() },
         }
     }
 
@@ -565,6 +628,8 @@ impl<T: Default + Reset + Traceable> Space<T> {
 
         // Mark as pooled (reset already called in sweep or will be called on reuse)
         gc_box.pooled.set(true);
+        #[cfg(tsrun_verif)]
+        gc_box.generation.set(gc_box.generation.get().wrapping_add(1));
 
         // Add pointer to pool for reuse
         self.free_list.push(ptr);
@@ -698,6 +763,8 @@ impl<T: Default + Reset + Traceable> Space<T> {
 
     /// Run mark-and-sweep collection
     fn collect(&mut self) {
+        #[cfg(tsrun_verif)]
+        crate::verif::on_collect();
         self.mark();
         self.sweep();
         self.net_allocs = 0;
